@@ -300,6 +300,45 @@ def extract_statements(src: str, lhs_re: str):
 
 
 # --------------------------------------------------------------------------
+# reading rendered C++ bodies: local pointer aliases and array writes
+
+_PTR = re.compile(r"\b(?:const\s+)?(?:realtype|double|float|sunrealtype)\s*\*\s*(?:const\s+)?(\w+)\s*=\s*(\w+)\s*\+\s*([^;]+);")
+_PTR2 = re.compile(r"\b(?:const\s+)?(?:realtype|double|float|sunrealtype)\s*\*\s*(?:const\s+)?(\w+)\s*=\s*&\s*(\w+)\s*\[([^;\]]+)\]\s*;")
+_INT = re.compile(r"\b(?:const\s+)?(?:int|size_t|sunindextype|long)\s+(\w+)\s*=\s*([^;]+);")
+
+
+def resolve_aliases(body: str) -> str:
+    """rewrite a C function body so that array accesses through local pointer aliases read as accesses to the
+    underlying array with the species macro as the only subscript:  with `realtype *p = a + off;`  (or `= &a[off]`),
+    `p[IDX_x]` becomes `a[IDX_x]`; with `int o = <expr>;`, `a[o + IDX_x]` becomes `a[IDX_x]`.  The offset itself is the
+    per-system stride of the batched kernels and is not interpreted (the reader sees one system)."""
+    alias = {}
+    for m in list(_PTR.finditer(body)) + list(_PTR2.finditer(body)):
+        alias[m.group(1)] = m.group(2)
+    ints = {m.group(1) for m in _INT.finditer(body)}
+
+    def base(n, depth=0):
+        while n in alias and depth < 8:
+            n, depth = alias[n], depth + 1
+        return n
+    out = body
+    for n in sorted(alias, key=len, reverse=True):
+        out = re.sub(rf"\b{re.escape(n)}\[", base(n) + "[", out)
+    for o in sorted(ints, key=len, reverse=True):
+        out = re.sub(rf"\[\s*{re.escape(o)}\s*\+\s*(IDX_\w+|\d+)\s*\]", r"[\1]", out)
+        out = re.sub(rf"\[\s*(IDX_\w+|\d+)\s*\+\s*{re.escape(o)}\s*\]", r"[\1]", out)
+    return out
+
+
+_WRITE = re.compile(r"\b(\w+)\s*\[([^\]=;]*IDX_\w+[^\]=;]*)\]\s*([-+*/%|&^]|<<|>>)?=(?!=)")
+
+
+def array_writes(body: str):
+    """every statement that assigns to an array element at a species/element macro subscript: (array, subscript, operator)"""
+    return [(m.group(1), " ".join(m.group(2).split()), (m.group(3) or "") + "=") for m in _WRITE.finditer(body)]
+
+
+# --------------------------------------------------------------------------
 # dual numbers over the rationals: exact first derivatives for the C02 oracle
 
 class Dual:
